@@ -1065,6 +1065,35 @@ def r46_f32_as_usize(text, base_line=0):
         pos = m.start() + 14
 
 
+def r47_zip_mut_enumerate(text, base_line=0):
+    """R47: `for (F, (A, B)) in X.iter_mut().zip(Y.iter_mut()).enumerate() { BODY }` (Y an expression producing a temporary Vec) ->
+    `{ let mut __zy = Y; let mut __f = 0; while __f < X.len() && __f < __zy.len() { let F = __f; let A = &mut X[F]; let B = &mut __zy[F]; BODY __f += 1; } }`"""
+    log = []
+    pat = re.compile(r"for\s*\(\s*(\w+)\s*,\s*\(\s*(\w+)\s*,\s*(\w+)\s*\)\s*\)\s*in\s*([\w\.\s]+?)\s*\.iter_mut\(\)\s*\.zip\(")
+    while True:
+        m = pat.search(text)
+        if not m:
+            return text, log
+        f, a, b, x = m.groups()
+        x = "".join(x.split())
+        zc = _balanced(text, m.end() - 1)                      # closes `.zip(`
+        y = text[m.end():zc - 1].strip()
+        if not y.endswith(".iter_mut()"):
+            raise LostAnchor("R47: the zipped operand is not `<expr>.iter_mut()`")
+        y = y[:-len(".iter_mut()")]
+        tail = re.match(r"\s*\.enumerate\(\)\s*\{", text[zc:])
+        if not tail:
+            raise LostAnchor("R47: `.enumerate() {` does not follow the zip")
+        bo = zc + tail.end() - 1
+        bc = _balanced(text, bo)
+        nl = text[m.start():bo].count("\n")
+        head = ("{ let mut __zy = %s; let mut __f: usize = 0; while __f < %s.len() && __f < __zy.len() { let %s = __f; let %s = &mut %s[%s]; let %s = &mut __zy[%s];"
+                % (" ".join(y.split()), x, f, a, x, f, b, f)) + "\n" * nl
+        log.append("R47 line %d: `for (%s, (%s, %s)) in %s.iter_mut().zip(%s.iter_mut()).enumerate() {` -> index loop over min(len) with `&mut` borrows of both sides (the right side bound to a local first)"
+                   % (base_line + text.count("\n", 0, m.start()), f, a, b, x, " ".join(y.split())))
+        text = text[:m.start()] + head + text[bo + 1:bc - 1] + " __f = __f + 1; } }" + text[bc:]
+
+
 def r21_to_owned(text, base_line=0):
     """R21: `.to_owned()` -> `.clone()` (identical for a `Clone` type; vstd specifies `Clone`)"""
     log = []
@@ -1082,9 +1111,9 @@ REWRITES = {
     "R1": r1_compound_assign, "R2": r2_unary_minus, "R3": r3_scale_call, "R6": r6_for_with_continue,
     "R7": r7_isqrt, "R8": r8_step_by, "R9": r9_consts, "R10": r10_tail_continue,
     "R12": r12_enumerate, "R15": r15_iter, "R16": r16_map_index, "R17": r17_for_in_ref_vec, "R18": r18_assert_eq_shape,
-    "R19": r19_last_unwrap, "R20": r20_range_enumerate, "R21": r21_to_owned, "R22": r22_map_collect, "R23": r23_slice_iter, "R24": r24_name_wildcard_loop, "R25": r25_par_map_collect, "R26": r26_zip_iter_mut, "R27": r27_sum_f32, "R28": r28_as_f32, "R29": r29_consuming_for, "R30": r30_rev_take_collect, "R31": r31_zip_map_sum, "R32": r32_chunked_zip_flat_map, "R33": r33_unzip, "R34": r34_chunked_flat_map, "R35": r35_chunk_const, "R36": r36_extend, "R37": r37_for_in_ref, "R38": r38_flat_map3, "R39": r39_unflatten, "R42": r42_assert_eq, "R43": r43_mut_self, "R44": r44_name_tail_call, "R45": r45_min_method, "R46": r46_f32_as_usize, "R40": r40_for_mut_ref, "R41": r41_iter_mut_for_each, "R13": r13_panic_allowed, "R14": r14_panic_forbidden,
+    "R19": r19_last_unwrap, "R20": r20_range_enumerate, "R21": r21_to_owned, "R22": r22_map_collect, "R23": r23_slice_iter, "R24": r24_name_wildcard_loop, "R25": r25_par_map_collect, "R26": r26_zip_iter_mut, "R27": r27_sum_f32, "R28": r28_as_f32, "R29": r29_consuming_for, "R30": r30_rev_take_collect, "R31": r31_zip_map_sum, "R32": r32_chunked_zip_flat_map, "R33": r33_unzip, "R34": r34_chunked_flat_map, "R35": r35_chunk_const, "R36": r36_extend, "R37": r37_for_in_ref, "R38": r38_flat_map3, "R39": r39_unflatten, "R42": r42_assert_eq, "R43": r43_mut_self, "R44": r44_name_tail_call, "R45": r45_min_method, "R47": r47_zip_mut_enumerate, "R46": r46_f32_as_usize, "R40": r40_for_mut_ref, "R41": r41_iter_mut_for_each, "R13": r13_panic_allowed, "R14": r14_panic_forbidden,
 }
-ORDER = ["R42", "R43", "R44", "R28", "R46", "R45", "R18", "R13", "R14", "R16", "R40", "R41", "R38", "R39", "R36", "R37", "R31", "R32", "R34", "R35", "R33", "R25", "R26", "R29", "R30", "R27", "R20", "R22", "R23", "R24", "R12", "R15", "R17", "R19", "R21", "R10", "R8", "R6", "R9", "R7", "R3", "R1", "R2"]
+ORDER = ["R42", "R43", "R44", "R28", "R46", "R45", "R47", "R18", "R13", "R14", "R16", "R40", "R41", "R38", "R39", "R36", "R37", "R31", "R32", "R34", "R35", "R33", "R25", "R26", "R29", "R30", "R27", "R20", "R22", "R23", "R24", "R12", "R15", "R17", "R19", "R21", "R10", "R8", "R6", "R9", "R7", "R3", "R1", "R2"]
 
 
 def apply_rewrites(text, names, base_line):
